@@ -389,9 +389,24 @@ def call_name(ev, node):
     return 'unknown', None
 
 
+def _count_call(ev, state, node, name):
+    """ghost counters: contract.ghost['count_calls'] = {last name component: ghost Int variable}"""
+    cc = ev.ctx.contract.ghost.get('count_calls') if ev.ctx.contract else None
+    if not cc or ev.ctx.spec_mode or not name:
+        return
+    g = cc.get(name.split('.')[-1])
+    if g is None:
+        return
+    ref = state.env.get(g)
+    if ref is not None:
+        v = read_ref(state, ref)
+        write_ref(state, ref, SymVal(T.INT, v.term + 1))
+
+
 def call(ev, state, node):
     ctx = ev.ctx
     kind, name = call_name(ev, node)
+    _count_call(ev, state, node, name)
     if kind == 'builtin':
         h = BUILTINS.get(name)
         if h is not None:
